@@ -271,4 +271,13 @@ def _combine_internals(fi: FuncInfo) -> List[Ob]:
             obs.append(bad("BLOCK", fi, key, P, loop, f"combine() empties/merges blocks while iterating `{it}`, which is not restricted to the arguments and the product spaces holding them"))
     if k < 2:
         raise AnalysisError("BLOCK: consumption loops of CompositeEnvelope.combine not found")
+    # no loop over *all* product spaces acts on them (expansion, contraction, reordering …)
+    j = 0
+    for loop in [n for n in walk_no_nested(fn) if isinstance(n, ast.For) and src(n.iter) in ALL_SPACES]:
+        j += 1
+        acts = [m for b in loop.body for m in [b] + list(walk_no_nested(b))
+                if (isinstance(m, ast.Attribute) and isinstance(m.ctx, ast.Store) and m.attr in ("state", "state_objs", "expansion_level"))
+                or (method_call(m) and method_call(m)[1] in ("expand", "contract", "measure", "measure_POVM", "apply_operation", "apply_kraus", "reorder", "resize_fock"))]
+        (obs.append(bad("BLOCK", fi, f"combine-loop-over-all-spaces#{j}", P, loop, "combine() acts on *every* product space of the composite (e.g. expands it), not only on those that hold one of its arguments: bystander blocks change representation")) if acts else
+         obs.append(ok("BLOCK", fi, f"combine-loop-over-all-spaces#{j}", P, loop, "loop over all product spaces only inspects them")))
     return obs
